@@ -49,7 +49,8 @@ fn draw_kind(rng: &mut Rng) -> BodyKind {
 }
 
 pub fn draw_edit(rng: &mut Rng) -> Edit {
-    match rng.below(34) {
+    match rng.below(35) {
+        34 => Edit::AddRootSection { pick: rng.u32() },
         32 | 33 => Edit::AddImportLate { kind: rng.below(4) as u8, export: rng.chance(3, 4), flavour: rng.below(4) as u8 },
         30 => Edit::InsertViaBlockMut { func: rng.u32(), seq: rng.u32(), pos: rng.u32(), n: 1 + rng.below(8) as u32 },
         31 => Edit::VisitMutPass { func: rng.u32(), what: rng.below(2) as u8 },
